@@ -4,7 +4,6 @@ package css
 // TODO: \uFFFD replacement character for NULL bytes in strings for example, or atleast don't end the string early
 
 import (
-	"bytes"
 	"io"
 	"strconv"
 
@@ -669,11 +668,48 @@ func (l *Lexer) consumeRemnantsBadURL() {
 }
 
 // consumeIdentlike consumes IdentToken, FunctionToken or UrlToken.
+// isURLName returns true if the identifier b spells url (in any case) once its escapes are decoded.
+func isURLName(b []byte) bool {
+	n := 0
+	for i := 0; i < len(b); n++ {
+		c := rune(b[i])
+		i++
+		if c == '\\' && i < len(b) {
+			c = rune(b[i])
+			i++
+			if '0' <= c && c <= '9' || 'a' <= c && c <= 'f' || 'A' <= c && c <= 'F' {
+				// hexadecimal escape of at most six digits, ended by an optional whitespace
+				i--
+				c = 0
+				for k := 0; k < 6 && i < len(b); k++ {
+					if d := b[i]; '0' <= d && d <= '9' {
+						c = c<<4 | rune(d-'0')
+					} else if 'a' <= d|0x20 && d|0x20 <= 'f' {
+						c = c<<4 | rune(d|0x20-'a'+10)
+					} else {
+						break
+					}
+					i++
+				}
+				if i+1 < len(b) && b[i] == '\r' && b[i+1] == '\n' {
+					i += 2
+				} else if i < len(b) && (b[i] == ' ' || b[i] == '\t' || b[i] == '\n' || b[i] == '\r' || b[i] == '\f') {
+					i++
+				}
+			}
+		}
+		if 3 <= n || c|0x20 != rune("url"[n]) {
+			return false
+		}
+	}
+	return n == 3
+}
+
 func (l *Lexer) consumeIdentlike() TokenType {
 	if l.consumeIdentToken() {
 		if l.r.Peek(0) != '(' {
 			return IdentToken
-		} else if !parse.EqualFold(bytes.Replace(l.r.Lexeme(), []byte{'\\'}, nil, -1), []byte{'u', 'r', 'l'}) {
+		} else if !isURLName(l.r.Lexeme()) {
 			l.r.Move(1)
 			return FunctionToken
 		}
